@@ -250,6 +250,71 @@ func childC18(args []string) int {
 		run.Distinct("hist|burst periods")
 	}
 
+	// ---- gauges registered at run time live in tables of their own: every counter that was
+	// reported before is still reported, under its name, afterwards
+	announceCase("gauges next to counters")
+	{
+		head := func(l metricLine) string {
+			var ts []string
+			for k, v := range l.Tags {
+				ts = append(ts, k+"*"+v)
+			}
+			sort.Strings(ts)
+			return l.Name + "|" + strings.Join(ts, "|")
+		}
+		early := []uint32{metrics.AddCounter("verif_c18_early_a", nil), metrics.AddCounter("verif_c18_early_b", metrics.Tags{"k": "v"})}
+		metrics.IncCounterBy(early[0], 11)
+		metrics.IncCounterBy(early[1], 22)
+		before := map[string]uint64{}
+		for _, l := range scrapeMetrics() {
+			if l.Tags["type"] == "counter" {
+				before[head(l)], _ = strconv.ParseUint(l.Val, 10, 64)
+			}
+		}
+		ng := len(before) + 8
+		if ng > 900 {
+			ng = 900
+		}
+		gids := make([]uint32, ng)
+		for i := range gids {
+			gids[i] = metrics.AddIntGauge(fmt.Sprintf("verif_c18_gauge_%d", i), nil)
+			metrics.SetIntGauge(gids[i], uint64(1000+i))
+		}
+		fg := metrics.AddFloatGauge("verif_c18_fgauge", nil)
+		metrics.SetFloatGauge(fg, 2.5)
+		after := map[string]uint64{}
+		gaugesSeen := 0
+		for _, l := range scrapeMetrics() {
+			if l.Tags["type"] == "counter" {
+				after[head(l)], _ = strconv.ParseUint(l.Val, 10, 64)
+			}
+			if strings.HasPrefix(l.Name, "verif_c18_gauge_") && l.Tags["type"] == "gauge" {
+				var i int
+				fmt.Sscanf(l.Name, "verif_c18_gauge_%d", &i)
+				if v, _ := strconv.ParseUint(l.Val, 10, 64); v == uint64(1000+i) {
+					gaugesSeen++
+				}
+			}
+		}
+		lost := []string{}
+		for k, v := range before {
+			if a, ok := after[k]; !ok || a < v {
+				lost = append(lost, k)
+			}
+		}
+		sort.Strings(lost)
+		run.Eval(1)
+		run.Count("counter_reads_checked", int64(len(before)))
+		run.Count("gauges_registered", int64(ng+1))
+		run.Distinct("counter|gauges registered next to them")
+		if len(lost) > 0 {
+			run.Violation("metrics|counter|after gauges were registered a counter is no longer reported under its name", map[string]interface{}{
+				"counters_before": len(before), "lost": lost[:minInt(len(lost), 6)], "gauges_registered": ng})
+		} else if gaugesSeen != ng {
+			run.Violation("metrics|gauge|registered gauges are not all reported under their names with the values set", map[string]interface{}{"registered": ng, "reported": gaugesSeen})
+		}
+	}
+
 	// ---- counters
 	announceCase("counters")
 	{
